@@ -411,21 +411,59 @@ impl C18 {
 
         // --- the CLI artifact
         let mut files: Vec<Vec<u8>> = vec![];
-        let profiles = rng.below(3);
-        let dot = dir.join(format!("p{idx}.env"));
-        let use_dot = rng.chance(1, 3);
+        // profile names (several spellings of one name on purpose) for --profile flags and env files; the env
+        // files carry values for the program's real env vars and parties, so that what a profile holds matters
+        const NAMES: [&str; 10] = ["preview", "Preview", "PREVIEW", "mainnet", "Mainnet", "zeta", "local", "Local", "dev", "Dev"];
+        let profiles = rng.below(4);
+        let flags: Vec<&str> = (0..profiles).map(|_| *rng.pick(&NAMES)).collect();
+        let mut keys: Vec<String> = vec![];
+        if let Ok(Ok(ast)) = crate::panics::catch(|| tx3_lang::parsing::parse_string(src)) {
+            if let Some(e) = &ast.env {
+                keys.extend(e.fields.iter().map(|f| f.name.clone()));
+            }
+            keys.extend(ast.parties.iter().map(|p| p.name.value.clone()));
+        }
+        let n_dot = if keys.is_empty() { 0 } else { rng.below(3) as usize };
+        let mut dots: Vec<(String, std::path::PathBuf)> = vec![];
+        for d in 0..n_dot {
+            // the same base name as a flag, in another spelling, half of the time
+            let name = if !flags.is_empty() && rng.bool() {
+                let f = *rng.pick(&flags);
+                (*rng.pick(&[f.to_lowercase(), f.to_uppercase(), f.to_string()])).clone()
+            } else {
+                rng.pick(&NAMES).to_string()
+            };
+            let path = dir.join(format!("p{idx}.{d}.env"));
+            let mut text = String::new();
+            for k in &keys {
+                if rng.chance(2, 3) {
+                    let spelled = if rng.bool() { k.to_uppercase() } else { k.clone() };
+                    text.push_str(&format!("{spelled}={}\n", *rng.pick(&["1", "true", "addr_test1vq0000", "xyz", "42"])));
+                }
+            }
+            text.push_str("UNRELATED=1\n");
+            let _ = std::fs::write(&path, text);
+            dots.push((name, path));
+        }
+        let use_dot = !dots.is_empty();
         if use_dot {
-            let _ = std::fs::write(&dot, "A=1\nB=2\nC=xyz\n");
+            ctx.count("tii/histories-with-env-file");
+            let all: Vec<String> = flags.iter().map(|f| f.to_lowercase()).chain(dots.iter().map(|(n, _)| n.to_lowercase())).collect();
+            let spellings: std::collections::BTreeSet<String> = flags.iter().map(|f| f.to_string()).chain(dots.iter().map(|(n, _)| n.clone())).collect();
+            let lowered: std::collections::BTreeSet<&String> = all.iter().collect();
+            if lowered.len() < spellings.len() {
+                ctx.count("tii/histories-with-one-profile-in-two-spellings");
+            }
         }
         for k in 0..3 {
             let out = dir.join(format!("p{idx}.run{k}.tii"));
             let mut cmd = std::process::Command::new(&env.tx3c);
             cmd.arg("build").arg(if k == 2 { &src_copy } else { &src_path }).arg("--emit").arg("tii").arg("-o").arg(&out);
-            for p in 0..profiles {
-                cmd.arg("--profile").arg(["preview", "mainnet", "zeta"][p as usize]);
+            for f in &flags {
+                cmd.arg("--profile").arg(f);
             }
-            if use_dot {
-                cmd.arg("--profile-env-file").arg(format!("dev:{}", dot.display()));
+            for (n, pth) in &dots {
+                cmd.arg("--profile-env-file").arg(format!("{n}:{}", pth.display()));
             }
             let o = cmd.stdin(std::process::Stdio::null()).stdout(std::process::Stdio::null()).stderr(std::process::Stdio::null()).status();
             match o {
@@ -445,7 +483,9 @@ impl C18 {
         }
         let _ = std::fs::remove_file(&src_path);
         let _ = std::fs::remove_file(&src_copy);
-        let _ = std::fs::remove_file(&dot);
+        for (_, pth) in &dots {
+            let _ = std::fs::remove_file(pth);
+        }
         let _ = std::fs::remove_dir(&dir2);
         let _ = std::fs::remove_dir(&dir);
         if files.len() == 3 {
@@ -476,7 +516,7 @@ impl Property for C18 {
         "C18"
     }
     fn rule(&self) -> String {
-        format!("for every example program of the repository and for generated programs weighted towards chain-specific directives with several fields (withdrawal, plutus_witness, publish, vote delegation, ...), 1-3 txs: the set of distinct byte strings of to_bytes(lower(analyze(parse(s)))) over {REPS} in-process repetitions and over 3 fresh processes (new hash seeds each) has one member per tx, and the .tii file written by 3 runs of the real tx3c binary (distinct output paths, one run from a copy of the source in another directory, 0-2 --profile flags, optional --profile-env-file, some histories spanning more than a second) is one byte string. A difference is located by walking the two CBOR / JSON documents in parallel. Non-trivial: the program has an ad-hoc directive with >= 2 fields or >= 2 txs; distinct = distinct sources.")
+        format!("for every example program of the repository and for generated programs weighted towards chain-specific directives with several fields (withdrawal, plutus_witness, publish, vote delegation, ...), 1-3 txs: the set of distinct byte strings of to_bytes(lower(analyze(parse(s)))) over {REPS} in-process repetitions and over 3 fresh processes (new hash seeds each) has one member per tx, and the .tii file written by 3 runs of the real tx3c binary (distinct output paths, one run from a copy of the source in another directory, 0-3 --profile flags and 0-2 --profile-env-file arguments whose profile names come in several spellings of one name and whose files give values to the program's real env vars and parties, some histories spanning more than a second) is one byte string. A difference is located by walking the two CBOR / JSON documents in parallel. Non-trivial: the program has an ad-hoc directive with >= 2 fields or >= 2 txs; distinct = distinct sources.")
     }
     fn assumptions(&self) -> Vec<String> {
         vec!["every process start draws fresh hash seeds (std RandomState), so three processes sample three seeds; in one process every new HashMap gets a new seed as well".into()]
@@ -496,7 +536,7 @@ impl Property for C18 {
         }
     }
     fn required_features(&self, _tier: Tier) -> Vec<String> {
-        ["programs/example", "programs/generated", "ir/in-process-histories", "ir/facade-histories-with-applied-args", "ir/process-histories", "tii/histories", "tii/histories-with>=2-profiles", "feature/adhoc-directive-with>=2-fields", "feature/adhoc-directive-with>=4-fields", "feature/>=2-adhoc-directives"]
+        ["programs/example", "programs/generated", "ir/in-process-histories", "ir/facade-histories-with-applied-args", "ir/process-histories", "tii/histories", "tii/histories-with>=2-profiles", "tii/histories-with-env-file", "tii/histories-with-one-profile-in-two-spellings", "feature/adhoc-directive-with>=2-fields", "feature/adhoc-directive-with>=4-fields", "feature/>=2-adhoc-directives"]
             .iter()
             .map(|s| s.to_string())
             .collect()
